@@ -14,12 +14,13 @@ theorem onUpstreamReadyRead_eq (env : Env) (s : Proxy.St) (chunk : Bytes) :
     | none => simp [indexOf_none hb]
     | some p =>
       obtain ⟨head, rest⟩ := p
-      have hne : ((head.length : Int) ≠ -1) := by omega
-      simp only [indexOf_some hb, left_some hb, mid_some hb, hne, ne_eq, not_false_eq_true, decide_true, if_true]
+      -- however the code tests "not found" (!= -1, < 0, …): the index is a length
+      have hlen : (0 : Int) ≤ (head.length : Int) := by omega
+      simp only [indexOf_some hb, left_some hb, mid_some hb]
       cases hr : Parser.parseResponseHeaders head with
-      | none => simp
+      | none => simp; all_goals grind
       | some t =>
         obtain ⟨code, reason, hs⟩ := t
-        simp
+        simp; all_goals grind
 
 end QhttpBridge.Proxy
